@@ -309,6 +309,11 @@ fn pools(c13: bool) -> Vec<(Vec<&'static str>, Vec<&'static str>)> {
         (vec!["row", "value", "Value", "RowValue1", "row_value", "RowValue"], vec!["id"]),
         // a separator inside a name against the same string split over two nesting levels
         (vec!["app.log", "app", "log.level", "log", "level"], vec!["value", "threshold"]),
+        // <parent>_<keyword> spelled out next to the keyword itself (the keyword's identifier is qualified
+        // with the parent's name)
+        (vec!["order", "order_type", "type", "orderType", "game", "game_match", "match"], vec!["ref", "kind"]),
+        // a container named as the plural of its items; entry under two parents next to log_entry
+        (vec!["log", "entry", "audit", "log_entry", "entries"], vec!["id", "kind"]),
     ];
     // digits followed by capitals; well-known attribute names (xml:lang only for quick-xml: prefixed)
     v.push((vec!["title", "X509Data", "Sha256Digest", "IPv4Address", "h1Title", "entry"], vec!["nil", "lang", "unit"]));
@@ -318,6 +323,7 @@ fn pools(c13: bool) -> Vec<(Vec<&'static str>, Vec<&'static str>)> {
         v.push((vec!["dc:terms:title", "dc:terms", "item", "a:b:c"], vec!["lang:iso:code", "xml:lang", "xml:space", "xsi:nil", "xmlns:xsi"]));
         // attributes and children may share names with the quick-xml preset ('@' separates them)
         v.push((vec!["a", "b", "id", "type"], vec!["a", "id", "type", "b"]));
+        v.push((vec!["order", "order_type", "item", "orderType"], vec!["type", "order_type", "ref"]));
     }
     v
 }
@@ -424,6 +430,17 @@ pub fn run(ctx: &mut Ctx, c13: bool) {
             vec![e("export", &[], kids)]
         };
         let mut v = vec![(vec![many(70, true), many(70, false)], false), (vec![many(129, true)], false), (vec![rows(256, true), rows(3, false)], false)];
+        // rows with two dozen attributes; a later row brings a new one, another lacks one
+        {
+            let attrs: Vec<String> = (0..24).map(|i| format!("a{}", i)).collect();
+            let arefs: Vec<&str> = attrs.iter().map(|x| x.as_str()).collect();
+            let mut more = arefs.clone();
+            more.push("note");
+            let mut fewer = arefs.clone();
+            fewer.remove(11);
+            v.push((vec![vec![e("table", &[], vec![e("row", &arefs, vec![]), e("row", &more, vec![])])], vec![e("table", &[], vec![e("row", &fewer, vec![])])]], false));
+            v.push((vec![vec![e("row", &arefs, vec![])], vec![e("row", &more, vec![])]], false));
+        }
         // blank / empty CDATA sections around a child element (known finding K3 for quick_xml::de)
         v.push((vec![vec![e("a", &[], vec![Node::CData, e("b", &[], vec![]), Node::CData])]], false));
         v.push((vec![vec![e("list", &["k"], vec![e("item", &["x"], vec![]), Node::CData, e("item", &["x"], vec![]), Node::CData, Node::CData])]], false));
